@@ -207,6 +207,13 @@ theorem renumbering_moves_every_node_to_its_number {β : Type} (N : Nat) (es : L
 example : sortNodes #[2, 0, 1, 3] #["a", "b", "c", "d"] = some #["b", "c", "a", "d"] := by decide +kernel
 example : sortNodes #[2, 0, 1, 1] #["a", "b", "c", "d"] = none := by decide +kernel
 
+/-- `BandWidth` as `Cuthill()` computes it is a true bound: the new numbers of the end points of every line of the edge file differ by
+    less than it.  Matrix entries only couple nodes joined by a mesh edge, so this is the hypothesis `hband` under which `SetValue`
+    may restrict its scan to the band (C09 `setValue_solves_constrained`; `setValue_band_needed` shows it cannot be dropped). -/
+theorem cuthill_bandwidth_bounds_every_edge (N : Nat) (es : List (Nat × Nat)) (r : Result) (hr : cuthill N es = some r)
+    (hes : ∀ e ∈ es, e.1 < N ∧ e.2 < N) (e : Nat × Nat) (he : e ∈ es) :
+    absDiff (r.newnum.getD e.1 0) (r.newnum.getD e.2 0) < r.bandwidth := cuthill_bandwidth N es r hr hes e he
+
 /-- `SortElements` (the comb sort that stops early) loses and duplicates nothing -/
 theorem sortElements_is_permutation (els : List Cuthill.Elem) : (sortElements els).Perm els := sortElements_perm els
 
